@@ -70,6 +70,7 @@ type Contract struct {
 	Line     int
 	CallAsserts []CallAssert // assertions at named call sites inside this function
 	SendAsserts []Clause     // "at_send assert label: e": holds at every channel send in this function
+	MakeAsserts []Clause     // "at_make assert label: e": holds at every make([]T, len, cap) in this function (names: makeLen, makeCap)
 	Ghost    []GhostUpdate // ghost updates performed at calls to this function (after the call)
 	Raw      []string
 }
@@ -554,6 +555,16 @@ func (cs *ContractSet) loadFile(path, repoDir string) error {
 				}
 				n, _ := strconv.Atoi(m[2])
 				cur.CallAsserts = append(cur.CallAsserts, CallAssert{Callee: m[1], N: n, Clause: c})
+			case "at_make":
+				m := regexp.MustCompile(`^assert\s+(.*)$`).FindStringSubmatch(rest)
+				if m == nil {
+					return fmt.Errorf("%s:%d: at_make assert label: expr", path, lineNo)
+				}
+				c, err := parseClause(m[1], path, lineNo)
+				if err != nil {
+					return err
+				}
+				cur.MakeAsserts = append(cur.MakeAsserts, c)
 			case "at_send":
 				m := regexp.MustCompile(`^assert\s+(.*)$`).FindStringSubmatch(rest)
 				if m == nil {
